@@ -78,7 +78,11 @@ class Kit:
         self.cont = gen.CONTAINERS[variant % 2]
         self.tmp = None
 
-    def rdms(self, n_rdm=4, n_cond=6, nan=False, positive=True):
+    def rdms(self, n_rdm=None, n_cond=6, nan=False, positive=True):
+        if n_rdm is None:
+            # variant 3: a stack of ONE RDM wherever the recipe does not need several (single-subject data, a pooled
+            # RDM, a fixed model) -- the size at which "nothing to do" shortcuts return the input itself
+            n_rdm = 1 if self.variant == 3 else 4
         if self.variant == 2 and not nan and n_cond >= 3:
             # the argument is itself a derived object (conditions selected out of a larger RDMs object): its
             # library-managed 'index' is not 0..n-1 and it may share containers with the object it came from --
@@ -141,6 +145,10 @@ class Kit:
     def cleanup(self):
         if self.tmp:
             shutil.rmtree(self.tmp, ignore_errors=True)
+
+
+POOL_METHODS = ['cosine', 'corr', 'rho-a', 'spearman', 'euclid', 'cosine_cov', 'corr_cov', 'tau-a']
+N_VARIANTS = {'pool_rdm': 16, 'pooling.pool_rdm': 16}
 
 
 def fitter_args(k, mkind='weighted'):
@@ -311,8 +319,10 @@ def recipes():
                                   {'file_type': ['hdf5', 'pkl'][k.variant % 2], 'overwrite': True})
     R['result_from_dict'] = lambda k: ([k.result().to_dict()], {})
     # --- util
-    R['pool_rdm'] = lambda k: ([k.rdms(3, nan=k.variant == 1)], {'method': ['cosine', 'corr', 'rho-a'][k.variant % 3]})
-    R['pooling.pool_rdm'] = lambda k: ([k.rdms(3)], {'method': ['cosine', 'corr_cov', 'cosine_cov'][k.variant % 3]})
+    # pooling: every method, for a stack of three and for a stack of one (variants 0..15, see N_VARIANTS)
+    R['pool_rdm'] = lambda k: ([k.rdms(3 if k.variant < 8 else 1, nan=k.variant == 1)],
+                               {'method': POOL_METHODS[k.variant % 8]})
+    R['pooling.pool_rdm'] = lambda k: ([k.rdms(3 if k.variant < 8 else 1)], {'method': POOL_METHODS[(k.variant + 4) % 8]})
     R['input_check_model'] = lambda k: ([[k.model('fixed'), k.model('weighted')]], {'theta': [None, np.ones(3)]})
     ev = lambda k: k.rng.standard_normal((12, 3, 4)) * 0.1 + 0.3  # noqa: E731
     R['all_tests'] = lambda k: ([ev(k), np.array([np.full(12, .5), np.full(12, .8)])],
@@ -405,6 +415,7 @@ def apply_inplace(obj, rng):
         key = [k for k in obj.pattern_descriptors if k != 'index']
         # operations that leave the order as it is come first: they do not disturb whatever the object still shares
         # with the object it was derived from, so the later operations meet the same state
+        ops.append(('sort_by_no_key', lambda: obj.sort_by()))        # only the default re-indexing acts
         if key and len(set(map(str, obj.pattern_descriptors[key[0]]))) == obj.n_cond:
             # sorting into the order the object is already in (e.g. "make sure it is sorted" before plotting)
             cur = list(obj.pattern_descriptors[key[0]])
@@ -530,6 +541,38 @@ def run_callable(ctx, short, fn, cls, builder, variant):
                     ctx.fail('inplace_on_result_leaves_source', dict(sig, what='source_changed', op=name),
                              f'{name} on the result of {short} altered the source object', wit(op=name))
                     return True
+        # thorough tier: every in-place operation additionally meets a FRESH result (the operations above run one after
+        # the other on the same object, so an earlier one may already have cut whatever the result shared with its source)
+        if ctx.tier == 'thorough' and results:
+            n_ops = len(apply_inplace(results[0], rng))
+            for i_op in range(n_ops):
+                try:
+                    np.random.seed(11)
+                    a4, k4 = builder(Kit(np.random.default_rng([ctx.seed, 80, variant, i_op]), variant))
+                    if short.endswith('.save'):
+                        break
+                    np.random.seed(12)
+                    res4 = target(a4, k4)
+                except Exception:
+                    break
+                r4 = objects_in(res4 if not isinstance(res4, tuple) else list(res4))
+                if isinstance(res4, Result) or not r4:
+                    break
+                ops4 = apply_inplace(r4[0], rng)
+                if i_op >= len(ops4):
+                    continue
+                name, thunk = ops4[i_op]
+                src4 = objects_in(a4)
+                fb = [fingerprint(x, index=True) for x in src4]
+                try:
+                    thunk()
+                except Exception:
+                    continue
+                ctx.case('inplace_on_result_leaves_source', dict(sig, op=name, fresh_result=True))
+                if [fingerprint(x, index=True) for x in src4] != fb:
+                    ctx.fail('inplace_on_result_leaves_source', dict(sig, what='source_changed', op=name),
+                             f'{name} on the (fresh) result of {short} altered the source object', wit(op=name))
+                    return True
         # ... and vice versa (fresh call, then mutate the sources)
         try:
             np.random.seed(11)
@@ -612,7 +655,7 @@ def run(ctx):
     R = recipes()
     found = discover()
     reached, unreached = [], []
-    n_var = 3 if ctx.tier == 'quick' else 3
+    n_var = 4
     names = sorted(found)
     for idx, short in enumerate(names):
         if ctx.nshards > 1 and idx % ctx.nshards != ctx.shard:
@@ -639,7 +682,8 @@ def run(ctx):
             unreached.append((short, 'no argument recipe'))
             continue
         okk = False
-        for v in range(n_var):
+        for v in range(N_VARIANTS.get(short, N_VARIANTS.get(base, n_var)) if short in N_VARIANTS or base in N_VARIANTS
+                       else n_var):
             try:
                 okk = run_callable(ctx, short, fn, cls, builder, v) or okk
             except Exception as exc:
